@@ -248,38 +248,19 @@ def run(ctx):
                                     "left out of the encoding and distinct values encode alike", floor=8)
 
     def kind_pred(f, K, depth=0):
-        """truth of the kind-only predicate f for kind K (None if it is not a boolean combination of kind tests)."""
-        rets = [n for n in f.nodes if n.get("k") == "return" and "e" in n]
-        if len(rets) != 1 or depth > 4:
-            return None
-
-        def ev(n):
-            n = core(n)
-            if n is None:
-                return None
-            k = n.get("k")
-            if k == "bool":
-                return bool(n.get("v"))
-            if k == "un" and n.get("op") == "!":
-                v = ev(n.child("e"))
-                return None if v is None else not v
-            if k == "bin" and n.get("op") in ("||", "&&"):
-                a, b = ev(n.child("l")), ev(n.child("r"))
-                if n["op"] == "||":
-                    return True if (a is True or b is True) else (None if (a is None or b is None) else False)
-                return False if (a is False or b is False) else (None if (a is None or b is None) else True)
-            if k == "bin" and n.get("op") in ("==", "!="):
-                l, r_ = expr_str(core(n.child("l"))), expr_str(core(n.child("r")))
-                if r_.split("->")[-1] == "kind":
-                    l, r_ = r_, l
-                if l.split("->")[-1] == "kind" and r_.split("::")[-1] in KINDS:
-                    eq = r_.split("::")[-1] == K
-                    return eq if n["op"] == "==" else not eq
-                return None
-            if k == "call" and n.get("fk") in prog.functions and "BuildValue::" in (n.get("fn") or "") and not n.get("args"):
-                return kind_pred(prog.functions[n["fk"]], K, depth + 1)
-            return None
-        return ev(rets[0].child("e"))
+        """truth of the kind-only predicate f for kind K — whatever its form (|| chain, isX() helpers, switch (kind), named booleans): the body is
+        walked with every `kind == Enumerator` test fixed (cfg.possible_returns).  None if the answer is not determined by the kind."""
+        env = {}
+        for k2 in KINDS:
+            for subj in ("kind", "this->kind"):
+                env["(%s == %s)" % (subj, k2)] = (k2 == K)
+                env["(%s == %s)" % (k2, subj)] = (k2 == K)
+        got = cfg.possible_returns(f, env)
+        if got == {True}:
+            return True
+        if got == {False}:
+            return False
+        return None
 
     KINDS = set(x["n"] for x in prog.enum("buildsystem::BuildValue::Kind")["enumerators"])
     PAYLOAD = (("CommandSignature", "kindHasSignature"), ("FileInfo", "kindHasOutputInfo"), ("basic_string", "kindHasStringList"), ("std::string", "kindHasStringList"))
